@@ -48,6 +48,28 @@ class Terms:
         self.cache[n] = v
         return v
 
+    def items_of(self, t):
+        """elements of an iterable term, in order; None when unknown"""
+        if not isinstance(t, tuple):
+            return None
+        if t[0] == "range":
+            return [("const", i) for i in range(t[1])]
+        if t[0] == "list":
+            return list(t[1])
+        return None
+
+    def bind(self, target, value, loc):
+        if isinstance(target, ast.Name):
+            return dict(loc, **{target.id: value})
+        if isinstance(target, (ast.Tuple, ast.List)) and value[0] == "list" and len(value[1]) == len(target.elts):
+            l2 = dict(loc)
+            for t_, v_ in zip(target.elts, value[1]):
+                l2 = self.bind(t_, v_, l2)
+                if l2 is None:
+                    return None
+            return l2
+        return None
+
     def ev(self, e, loc=None):
         loc = loc or {}
         if isinstance(e, ast.Name):
@@ -67,14 +89,28 @@ class Terms:
                 else:
                     items.append(self.ev(x, loc))
             return ("list", tuple(items))
-        if isinstance(e, ast.ListComp) and len(e.generators) == 1:
+        if isinstance(e, (ast.ListComp, ast.GeneratorExp, ast.DictComp)) and len(e.generators) == 1 and not e.generators[0].ifs:
             g = e.generators[0]
-            it = self.ev(g.iter, loc)
-            if it[0] == "range" and isinstance(g.target, ast.Name):
-                return ("list", tuple(self.ev(e.elt, dict(loc, **{g.target.id: ("const", i)})) for i in range(it[1])))
-            return ("unknown", ast.unparse(e))
+            items = self.items_of(self.ev(g.iter, loc))
+            if items is None:
+                return ("unknown", ast.unparse(e)[:60])
+            out = []
+            for it_ in items:
+                l2 = self.bind(g.target, it_, loc)
+                if l2 is None:
+                    return ("unknown", ast.unparse(e)[:60])
+                out.append((self.ev(e.key, l2), self.ev(e.value, l2)) if isinstance(e, ast.DictComp) else self.ev(e.elt, l2))
+            return ("dict", tuple(out)) if isinstance(e, ast.DictComp) else ("list", tuple(out))
         if isinstance(e, ast.Set):
-            return ("set", frozenset(self.ev(x, loc) if not isinstance(x, ast.Starred) else ("star", self.ev(x.value, loc)) for x in e.elts))
+            members = []
+            for x in e.elts:
+                if isinstance(x, ast.Starred):
+                    v = self.ev(x.value, loc)
+                    its = self.items_of(v)
+                    members.extend(its if its is not None else [("star", v)])
+                else:
+                    members.append(self.ev(x, loc))
+            return ("set", frozenset(members))
         if isinstance(e, ast.Subscript):
             b = self.ev(e.value, loc)
             s = e.slice
@@ -130,6 +166,13 @@ class Terms:
                 return ("int", flat[0], flat[1])
             if fname == "set" and flat and flat[0][0] == "list":
                 return ("set", frozenset(flat[0][1]))
+            if fname == "zip" and flat and all(self.items_of(a) is not None for a in flat):
+                cols = [self.items_of(a) for a in flat]
+                return ("list", tuple(("list", tuple(c[i] for c in cols)) for i in range(min(len(c) for c in cols))))
+            if fname == "dict" and len(flat) == 1 and flat[0][0] == "list" and all(x[0] == "list" and len(x[1]) == 2 for x in flat[0][1]) and not e.keywords:
+                return ("dict", tuple((x[1][0], x[1][1]) for x in flat[0][1]))
+            if fname == "list" and len(flat) == 1 and self.items_of(flat[0]) is not None:
+                return ("list", tuple(self.items_of(flat[0])))
             if isinstance(f, ast.Attribute):
                 b = self.ev(f.value, loc)
                 if f.attr == "mul" and len(flat) == 1:
@@ -140,7 +183,17 @@ class Terms:
                     return ("R", b)
             return ("call", fname, tuple(flat))
         if isinstance(e, ast.Dict):
-            return ("dict", tuple((self.ev(k, loc), self.ev(v, loc)) for k, v in zip(e.keys, e.values)))
+            entries = []
+            for k, v in zip(e.keys, e.values):
+                if k is None:
+                    # **mapping: its entries in place
+                    inner = self.ev(v, loc)
+                    if inner[0] != "dict":
+                        return ("unknown", ast.unparse(e)[:60])
+                    entries.extend(inner[1])
+                else:
+                    entries.append((self.ev(k, loc), self.ev(v, loc)))
+            return ("dict", tuple(entries))
         if isinstance(e, ast.JoinedStr):
             return ("fstr", ast.unparse(e))
         return ("unknown", ast.unparse(e)[:60])
